@@ -11,7 +11,7 @@ from vfw.core import Violation, must_return
 from vfw.model import topology as T
 
 PROPERTY = "C06"
-SIZES = {"quick": 1600, "thorough": 40000}
+SIZES = {"quick": 2400, "thorough": 40000}
 RULE = (
     "Hypothesis draws a call of one of the kinds: stencil (C01's generator: diff/interp/min/max, 1-3 axes), cumsum (C09's "
     "generator incl. metric weighting and cumint), reduce (integrate/average/derivative with metrics), ufunc "
@@ -108,7 +108,10 @@ def strategy_impl(draw, tier):
                     chunks[d] = [k, L - k]
                 elif d != split:
                     chunks[d] = [L]
-    case = {"kind": kind, "sub": sub, "chunks": chunks, "scheduler": draw(st.sampled_from(["synchronous", "threads"]))}
+    case = {"kind": kind, "sub": sub, "chunks": chunks, "scheduler": draw(st.sampled_from(["synchronous", "threads"])),
+            # calls with two array inputs (vector component + partner, two-input ufuncs): both lazy, or only one of them
+            "lazy_mask": draw(st.sampled_from([[True, True], [True, True], [True, False], [False, True]])),
+            "two_inputs": draw(st.booleans())}
     if kind == "faces-vector":
         # used only when the decomposition has no links at all (a simple grid: there every dimension may be chunked)
         N = sub["N"]
@@ -136,7 +139,8 @@ def chunk(da, chunks):
     return da.chunk(c)
 
 
-def lazy_vs_eager(call, inputs, chunks, scheduler, allowed_notimpl, what, ctx=None, eager_call=None, sibling=None):
+def lazy_vs_eager(call, inputs, chunks, scheduler, allowed_notimpl, what, ctx=None, eager_call=None, sibling=None, lazy_mask=None,
+                  result_may_be_eager=False):
     """sibling: optional second call on the same inputs that differs only in the boundary treatment; its lazy result is
     computed *together with* the first one in a single graph (dask.compute(a, b)) and both must still equal their
     in-memory counterparts."""
@@ -147,7 +151,9 @@ def lazy_vs_eager(call, inputs, chunks, scheduler, allowed_notimpl, what, ctx=No
         eager = (eager_call or call)(*inputs)
     except Exception as e:  # noqa: BLE001
         return None  # the eager call itself is refused: nothing to compare (counted by caller)
-    lazy_in = [chunk(x, chunks) for x in inputs]
+    # lazy_mask: which of the inputs are dask-backed (default: all of them) - lazy inputs are accepted wherever in-memory ones
+    # are, so also next to in-memory ones
+    lazy_in = [chunk(x, chunks) if (lazy_mask is None or lazy_mask[i]) else x for i, x in enumerate(inputs)]
     counter = Counter()
     try:
         with dask.config.set(scheduler=counter):
@@ -189,7 +195,7 @@ def lazy_vs_eager(call, inputs, chunks, scheduler, allowed_notimpl, what, ctx=No
     outs_l = lazy if isinstance(lazy, (tuple, list)) else [lazy]
     outs_e = eager if isinstance(eager, (tuple, list)) else [eager]
     for l, e in zip(outs_l, outs_e):
-        if not dask.is_dask_collection(l.data):
+        if not dask.is_dask_collection(l.data) and not result_may_be_eager:
             raise Violation(f"{what}: result of a lazy input is not dask-backed", chunks=chunks)
         try:
             with dask.config.set(scheduler=scheduler):
@@ -227,7 +233,9 @@ def check(case, ctx):
     if any(len(v) > 1 and (v[0] == 1 or v[-1] == 1) for v in chunks.values()):
         classes.append("size1-at-end")
     if kind == "faces-vector":
-        sub = dict(sub, _spatial_chunks=case.get("spatial_chunks"))
+        sub = dict(sub, _spatial_chunks=case.get("spatial_chunks"), _lazy_mask=case.get("lazy_mask"))
+    if kind == "ufunc":
+        sub = dict(sub, _lazy_mask=case.get("lazy_mask"), _two_inputs=case.get("two_inputs"))
     res = RUNNERS[kind](sub, chunks, case["scheduler"], classes, ctx)
     if res is None:
         classes.append("eager-refused")
@@ -402,6 +410,19 @@ def run_ufunc(sub, chunks, scheduler, classes, ctx):
     # the in-memory reference is the same ufunc applied without dask options
     eager = lambda x: grid.apply_as_grid_ufunc(f, x, axis=[tuple(opax)], signature=sig, boundary_width=bw,  # noqa: E731
                                                boundary=sub["boundary"], fill_value=fv)
+    if sub.get("_two_inputs"):
+        # the same stencil on two inputs, added up; with dask='parallelized' either input may be the only lazy one
+        mask = (sub.get("_lazy_mask") or [True, True]) if mode == "parallelized" else [True, True]
+        classes.append("ufunc-two-inputs" + ("" if mask == [True, True] else "-one-lazy"))
+        side = sig.split("->")[0]
+        sig2 = f"{side},{side}->{side}"
+        f2 = lambda a, b: f(a) + f(b)  # noqa: E731
+        da2 = (da * 2.0 + 1.0).rename("psi")
+        call2 = lambda x, y: grid.apply_as_grid_ufunc(f2, x, y, axis=[tuple(opax)] * 2, signature=sig2, boundary_width=bw,  # noqa: E731
+                                                      boundary=sub["boundary"], fill_value=fv, **kw)
+        eager2 = lambda x, y: grid.apply_as_grid_ufunc(f2, x, y, axis=[tuple(opax)] * 2, signature=sig2, boundary_width=bw,  # noqa: E731
+                                                       boundary=sub["boundary"], fill_value=fv)
+        return lazy_vs_eager(call2, [da, da2], ch, scheduler, False, f"apply_as_grid_ufunc[{mode}, two inputs]", eager_call=eager2, lazy_mask=mask)
     other = "extend" if sub["boundary"] != "extend" else "periodic"
     sib = lambda x: grid.apply_as_grid_ufunc(f, x, axis=[tuple(opax)], signature=sig, boundary_width=bw, boundary=other, **kw)  # noqa: E731
     return lazy_vs_eager(call, [da], ch, scheduler, False, f"apply_as_grid_ufunc[{mode}]", eager_call=eager, sibling=sib)
@@ -468,10 +489,14 @@ def run_faces_vector(sub, chunks, scheduler, classes, ctx):
     uda = xr.DataArray(u, dims=lab + ["yc", "xl"]).transpose(*uo)
     vda = xr.DataArray(v, dims=lab + ["yl", "xc"]).transpose(*vo)
     fn = getattr(grid, sub["op"])
+    mask = sub.get("_lazy_mask") or [True, True]
+    if mask != [True, True]:
+        classes.append("vector-one-component-lazy")
+    # (a component in memory whose partner alone is lazy may legitimately come back in memory when no halo is taken from the partner)
     r1 = lazy_vs_eager(lambda a, b: fn({"X": a}, "X", other_component={"Y": b}), [uda, vda], chunks, scheduler, False,
-                       f"face-connected vector Grid.{sub['op']} (X component)")
+                       f"face-connected vector Grid.{sub['op']} (X component)", lazy_mask=mask, result_may_be_eager=not mask[0])
     r2 = lazy_vs_eager(lambda a, b: fn({"Y": b}, "Y", other_component={"X": a}), [uda, vda], chunks, scheduler, False,
-                       f"face-connected vector Grid.{sub['op']} (Y component)")
+                       f"face-connected vector Grid.{sub['op']} (Y component)", lazy_mask=mask, result_may_be_eager=not mask[1])
     return "ok" if (r1 == "ok" and r2 == "ok") else (r1 or r2)
 
 
